@@ -641,6 +641,7 @@ class Gen:
             self.cx.append(f'extern "C" void *vf_cast_{cid}__{bid}(void *p) {{ return static_cast<{b} *>(({q} *)p); }}')
         for m in members_decl:
             if m["array"]:
+                self.cx.append(f'extern "C" long long vf_peekat_{cid}_{m["name"]}(void *p, int i) {{ return (long long)(({q} *)p)->{m["name"]}[i]; }}')
                 continue
             k = m["type"]["k"]
             acc = f"{q}::{m['name']}" if m["static"] else f"(({q} *)p)->{m['name']}"
